@@ -81,6 +81,13 @@ def pipeline(inputs, hash_type, lock_time, tamper, signers_used, version=0):
         psbt = d.update_psbt_input(psbt, k, inputs[k][3])
     if version == 2:
         psbt = psbt.to_v2()
+    # C18: the weight estimated for the unsigned psbt (the library's miniscript sizer for the witness
+    # scripts it reads as miniscript; None where the library refuses to estimate: a script path whose
+    # leaf is the caller's knowledge)
+    try:
+        estimate = psbt.weight_estimate(D.miniscript_sizer)
+    except BTClibValueError:
+        estimate = None
     used = set()
     for k, (kind, seeds, branch, index, sequence) in enumerate(inputs):
         order = list(range(len(seeds)))
@@ -147,7 +154,7 @@ def pipeline(inputs, hash_type, lock_time, tamper, signers_used, version=0):
         tampered = True
     except BTClibValueError:
         tampered = False
-    return accepted, (tampered if committed else None)
+    return accepted, (tampered if committed else None), estimate, final.weight
 
 
 def _gen_pipeline(rng):
@@ -164,7 +171,7 @@ def _gen_pipeline(rng):
                 version=rng.choice([0, 0, 2]))
 
 
-@contract("contracts.c_pipeline.pipeline", gen=_gen_pipeline, props="C10", n_quick=150, n_thorough=1500,
+@contract("contracts.c_pipeline.pipeline", gen=_gen_pipeline, props="C10 C18", n_quick=150, n_thorough=1500,
           rule="1..3 inputs drawn from pkh, wpkh, sh(wpkh), wsh/sh/sh-wsh multi 2-of-3, sortedmulti, tr key path, tr with a two-leaf tree, tr with a multi_a leaf, two wsh miniscripts (older() / after() branches, final and non-final sequences); account xpubs with origins from the independent BIP32 reference, branches 0/1, indexes 0, 1, 7, 2^31-1; every hash type; psbt v0 and (converted before signing) v2; all signers, a quorum, or the leaf keys alone (script path); one alteration of an output amount, an output script, a sequence, the lock time or the spent amount")
 class PipelineBounded:
     """what the library builds, updates, signs, finalizes and extracts, its engine accepts under
@@ -172,8 +179,13 @@ class PipelineBounded:
     is rejected"""
 
     def post_accepted_and_tamper_rejected(result):
-        accepted, tampered = result
+        accepted, tampered = result[0], result[1]
         return accepted is True and tampered in (False, None)
+
+    def post_estimate_bounds_the_signed_weight(result):
+        # C18: never below the weight of the transaction the library then signs and finalizes
+        estimate, actual = result[2], result[3]
+        return estimate is None or estimate >= actual
 
 
 # ---------------------------------------------------------------- BIP322 message signatures
